@@ -1017,6 +1017,12 @@ func (s *Store[K, V]) Recover(version uint64, reader io.Reader) error {
 			}
 			metaSeen = true
 			s.timerwheel.clock.SetStart(m.StartNano)
+			// The wheel time was taken against this cache's own clock origin. Re-base it
+			// (and the cached clock) on the adopted origin, otherwise the loaded entries are
+			// scheduled by "age of the saved cache + remaining time" and land on far too
+			// coarse a level: they would be reclaimed long after their deadline.
+			s.timerwheel.nanos = s.timerwheel.clock.NowNano()
+			s.timerwheel.clock.RefreshNowCache()
 			s.policy.sketch.EnsureCapacity(uint(m.Total))
 		case 2: // window lru
 			entryDecoder := gob.NewDecoder(reader)
